@@ -1,7 +1,7 @@
 (* Props/C06.v — Outcomes are recorded faithfully and exactly once. *)
 From GK Require Import SysCheck.
 From GK.Proofs Require Import SysSmall.
-From GK.Proofs Require SysProofs RestProofs.
+From GK.Proofs Require SysProofs RestProofs RestProofs2.
 
 (* Step's result branch takes the OLDEST queued result, calls MarkAsDone for exactly that task with exactly
    that outcome's error text, removes it from the queue and reports it *)
@@ -85,3 +85,13 @@ Theorem C06_markdone_fault_refuted :
   /\ c06_ok RestProofs.cex_c06_fault = false.
 Proof. exact RestProofs.C06_rest_refuted. Qed.
 Print Assumptions C06_markdone_fault_refuted.
+
+(* ... and with faults at MarkAsDone itself allowed, as long as the driver answers a TaskDone that carries an update
+   error with Retry (the property's premise) and the trace ends at rest (Proofs/RestProofs2.v) *)
+Theorem C06_predicate_holds_at_rest_when_retried : forall tr dump now s,
+  let tr' := (tr ++ [LDump dump now true])%list in
+  SysProofs.srun sys_init tr' = Some s -> SysProofs.srun_ok sys_init tr' ->
+  RestProofs2.taskdone_err_retried false tr' = true -> sy_results s = [] ->
+  c06_ok tr' = true.
+Proof. exact RestProofs2.C06_predicate_at_rest_retried. Qed.
+Print Assumptions C06_predicate_holds_at_rest_when_retried.
